@@ -78,7 +78,9 @@ MODULES = {
          "bound_upper_scaled_multiplicative", "bound_lower_scaled_multiplicative",
          "bound_scaled_multiplicative",
          "bound_upper_sharp", "bound_lower_sharp", "bound_sharp"],
-        {},
+        # the scaled variants compute `max - min`: both limits are required (None raises TypeError)
+        {"bound_scaled_power": {"max": "T", "min": "T"},
+         "bound_scaled_multiplicative": {"max": "T", "min": "T"}},
     ),
 }
 
@@ -328,6 +330,8 @@ class Translator:
     def ifexp(self, test, fa, fb, env):
         """if-expression with option tests turned into matches"""
         kind, names = self.cond_kind(test, env)
+        if kind == "const":   # `x is [not] None` for a parameter this model declares as always given
+            return fa(env) if names else fb(env)
         if kind == "bool":
             c = self.toB(self.expr(test, env))
             a, b = fa(env), fb(env)
@@ -358,6 +362,13 @@ class Translator:
                 return "some", [test.left.id]
             if isinstance(test.ops[0], ast.Is):
                 return "none", [test.left.id]
+        if isinstance(test, ast.Compare) and len(test.ops) == 1 and isinstance(test.comparators[0], ast.Constant) \
+                and test.comparators[0].value is None and isinstance(test.left, ast.Name) \
+                and env.get(test.left.id) in ("T", "Z", "B", "fun", "funB"):
+            if isinstance(test.ops[0], ast.IsNot):
+                return "const", True
+            if isinstance(test.ops[0], ast.Is):
+                return "const", False
         if isopt(test):  # truthiness of an optional callable
             return "some", [test.id]
         if isinstance(test, ast.BoolOp) and isinstance(test.op, ast.And):
